@@ -42,6 +42,26 @@ func renderRun(key string, data *DataEnv, fail, short int) VRun {
 	return VRun{Fail: fail, Short: short, Obs: obs, Writes: fw.n}
 }
 
+// namesCovered: every variable the first data set defines is defined (hence overwritten) by the second.
+func namesCovered(prev, cur *DataEnv) bool {
+	have := map[string]bool{}
+	if cur.User.Present {
+		have["user"] = true
+	}
+	for _, s := range cur.Statics {
+		have[s.Name] = true
+	}
+	if prev.User.Present && !have["user"] {
+		return false
+	}
+	for _, s := range prev.Statics {
+		if !have[s.Name] {
+			return false
+		}
+	}
+	return true
+}
+
 // warmRun renders twice on one context with a Reset in between and returns the second observation.
 func warmRun(key string, data *DataEnv) Obs {
 	var second bytes.Buffer
@@ -232,6 +252,7 @@ func runInterp(o *Options, prop string, prof *Profile, quickN, thoroughN int, co
 			res.Hist("stream:keepfmt-twin")
 		}
 	}
+	var prevData *DataEnv
 	for _, ic := range queue {
 		vc := ic.vc
 		key, dump, po := parseDump([]byte(vc.Src), vc.KeepFmt)
@@ -261,6 +282,28 @@ func runInterp(o *Options, prop string, prof *Profile, quickN, thoroughN int, co
 						"observed": string(w.Out), "observed_err": w.Err, "observed_panic": w.Panic, "new_context": string(f.Out), "new_context_err": f.Err}})
 			}
 		}
+		// variables already set by an earlier caller are overwritten by the setters, whatever they
+		// held: the data of the previous case first, then this case's data, on one context
+		if prevData != nil && !vc.Runs[0].Obs.Hang && namesCovered(prevData, vc.Data) {
+			f := vc.Runs[0].Obs
+			pd, cd := prevData, vc.Data
+			ow := guarded(5*time.Second, func() ([]byte, error) {
+				ctx := dyntpl.NewCtx()
+				pd.Apply(ctx)
+				cd.Apply(ctx)
+				return dyntpl.Render(key, ctx)
+			})
+			harnessLog.take()
+			res.Hist("overwrite:run")
+			if !ow.Hang && (string(ow.Out) != string(f.Out) || ow.Err != f.Err || (ow.Panic != "") != (f.Panic != "")) {
+				res.OracleFails++
+				res.AddViolation(&Violation{Kind: "failing-input", Class: "overwrite:differs-from-new",
+					What: fmt.Sprintf("template %q renders %q err=%q %s when its variables overwrite the ones of another data set (%s), and %q err=%q on a new context", vc.Src, ow.Out, ow.Err, firstLine(ow.Panic), pd.Slots(), f.Out, f.Err),
+					Replay: map[string]any{"template": vc.Src, "keep_fmt": vc.KeepFmt, "data_slots": vc.Data.Slots(), "previous_data_slots": pd.Slots(), "includes": vc.Meta,
+						"how": "NewCtx; set the previous data; set this data (same names, other kinds and values); render", "observed": string(ow.Out), "observed_err": ow.Err, "new_context": string(f.Out), "new_context_err": f.Err}})
+			}
+		}
+		prevData = vc.Data
 		if prof.Faults {
 			w := vc.Runs[0].Writes
 			for k := 1; k <= w && k <= 40; k++ {
